@@ -42,6 +42,7 @@ type edit struct {
 	del  int      // splice: bytes removed at off
 	ins  []byte   // splice: bytes inserted at off
 	fix  []lenRef // splice: length fields adjusted by len(ins)-del
+	hold int      // second fault (datagram stack): every datagram the READER of the edited record writes after it got the edited copy is withheld until the WRITER of the edited record has written again (its retransmission timer fired; at most 8 datagrams), so that a GENUINE copy of the edited record follows the altered one
 }
 
 // applySetLen rewrites the big-endian length field rec[off:off+w]; ok=false when the field is
@@ -266,6 +267,8 @@ func injected(kind string, hdrLen int) []byte {
 		return mk(22, nil)
 	case "ccs":
 		return mk(20, []byte{1})
+	case "hsd":
+		return mk(22, []byte{14, 0, 0, 0}) // a whole, well-formed handshake message (ServerHelloDone)
 	case "app":
 		return mk(23, []byte("hello"))
 	}
